@@ -864,6 +864,15 @@ def _name_symbols(sx: SymX, t: Term, internal: Term, depth: int = 0) -> list[Ter
     return out
 
 
+def _prefix_tested(sx: SymX, name: Term, P: Term, internal: Term) -> bool:
+    """Some membership test inside the name is made on a name that contains the prefix."""
+    for key in _all_guard_atoms(sx, name, internal):
+        t = sx.atoms.get(key)
+        if t is not None and t[0] == "cmp" and t[1] == "in" and t[3] == internal and P in leaves(t[2], ("param",)):
+            return True
+    return False
+
+
 def _all_guard_atoms(sx: SymX, t: Term, internal: Term, depth: int = 0) -> set[str]:
     """Atoms of all guards inside a name, including those inside the names tested for membership."""
     out: set[str] = set()
@@ -1035,6 +1044,15 @@ def _check_adjusted(sx: SymX, name: Term, P: Term, I: Term, guard: Formula = TRU
     tests_prefix = any(sx.atoms.get(k) == P for k in _all_guard_atoms(sx, name, I))
     if tests_prefix:
         universe = universe + [("truth", P)]
+    labels = {P: "prefix", n[1]: "x"}
+    if a is not None:
+        labels[a[1]] = "y"
+    stmt = "from x import y" if a is not None else "import x"
+
+    def text(nm) -> str:
+        return ".".join(q[1] if q[0] == "c" else labels.get(q[1], show(q[1], 40)) for q in nm)
+
+    mismatches = []
     for values in itertools.product([False, True], repeat=len(universe)):
         facts = dict(zip(universe, values))
         facts["known"] = guard
@@ -1061,12 +1079,16 @@ def _check_adjusted(sx: SymX, name: Term, P: Term, I: Term, guard: Formula = TRU
         if got is None:
             return None, f"cannot evaluate `{show(name, 140)}` for a given set of internal modules"
         if got != expected:
-            inside = [_show_name(k) for k, v in facts.items() if k != "known" and v and k[0] != "truth"]
-            if P not in [q[1] for q in got if q[0] == "s"] and not any(P in leaves(t[2], ("param",)) for t in sx.atoms.values() if t[0] == "cmp" and t[1] == "in" and t[3] == I and any(y == n[1] for y in subterms(t[2]))):
-                why = f"its name never passes the root-prefix adjustment: imports written relative to module_path's parent no longer resolve when a sub-directory is scanned"
-            elif a is not None and len(got) < len(expected):
-                why = "the sub-module test of `from x import y` is made on the un-adjusted name: the importee is the package instead of the sub module"
-            else:
-                why = "the name is not `prefix.name` exactly when that is a scanned module"
-            return False, f"with internal modules {{{', '.join(inside)}}} the importee is `{_show_name(got)}` instead of `{_show_name(expected)}`: {why}"
+            inside = [k for k, v in facts.items() if k != "known" and v and k[0] != "truth"]
+            mismatches.append((sum(1 for k in inside if k[0] != p), len(inside), inside, got, expected))
+    if mismatches:
+        # report the most natural witness: internal modules are fully qualified names
+        _r, _n, inside, got, expected = min(mismatches, key=lambda m: (m[0], m[1]))
+        if all(p not in m[3] for m in mismatches) and not _prefix_tested(sx, name, P, I):
+            why = "its name never passes the root-prefix adjustment: imports written relative to module_path's parent no longer resolve when a sub-directory is scanned"
+        elif a is not None and len(got) < len(expected):
+            why = "the sub-module test is made on the un-adjusted name: the importee is the package instead of the sub module"
+        else:
+            why = "the name is not `prefix.x` exactly when that is a scanned module"
+        return False, f"`{stmt}` with internal modules {{{', '.join(text(k) for k in inside)}}} yields the importee `{text(got)}` instead of `{text(expected)}`: {why}"
     return True, "the absolute importee is `prefix.name` exactly when that is a scanned module" + (" (sub-module test on the adjusted name)" if a is not None else "")
